@@ -84,19 +84,20 @@ func c19TouchesID(c c19AccCase, idx int) bool {
 	return false
 }
 
-var c19AccVersions = []string{"10", "12", "3", "4", "11", "6", "9", "org.matrix.hydra.11", "org.matrix.msc4014", "1", "2"}
+// (the three event formats - v1/v2, v3..v11, v12 - have accessors of their own: each gets about a third)
+var c19AccVersions = []string{"10", "12", "3", "4", "11", "12", "6", "9", "org.matrix.hydra.11", "org.matrix.msc4014", "1", "2", "12", "org.matrix.hydra.11", "1", "2"}
 var c19AccKinds = []string{"message", "message-long-sticky", "member", "create", "power", "power-full", "joinrules", "histvis", "redaction"}
 
 func c19AccGen(t *rapid.T) c19AccCase {
 	c := c19AccCase{
 		Version: rapid.SampledFrom(c19AccVersions).Draw(t, "version"),
 		Kind:    rapid.SampledFrom(c19AccKinds).Draw(t, "kind"),
-		Parse:   rapid.SampledFrom([]string{"untrusted", "untrusted", "trusted", "trusted", "trusted-id"}).Draw(t, "parse"),
+		Parse:   rapid.SampledFrom([]string{"untrusted", "untrusted", "trusted", "trusted", "trusted-id", "trusted-roomy"}).Draw(t, "parse"),
 		Warm:    rapid.IntRange(0, 3).Draw(t, "warm") == 0,
 	}
 	k := rapid.IntRange(2, 8).Draw(t, "k")
 	// three program shapes: everybody asks for the ID first; nobody touches the ID; free mix
-	shape := rapid.IntRange(0, 5).Draw(t, "shape")
+	shape := rapid.SampledFrom([]int{0, 1, 2, 3, 4, 5, 4, 5}).Draw(t, "shape")
 	// shapes 4, 5: every goroutine starts with the SAME accessor (any of them may keep a lazily
 	// computed value or tidy a slice in place), then goes its own way
 	same := rapid.IntRange(0, len(c19Accessors)-1).Draw(t, "sameAcc")
@@ -211,6 +212,10 @@ func c19AccBuild(c c19AccCase) ([]byte, IRoomVersion, error) {
 
 func c19AccParse(ver IRoomVersion, how string, evJSON []byte, id string) (PDU, error) {
 	cp := append([]byte(nil), evJSON...)
+	if how == "trusted-roomy" {
+		// parsed out of a larger read buffer: there is room behind the event's JSON that is not the event's
+		cp = append(make([]byte, 0, len(evJSON)+256), evJSON...)
+	}
 	switch how {
 	case "untrusted":
 		return ver.NewEventFromUntrustedJSON(cp)
@@ -293,6 +298,7 @@ func c19AccRun(out *c19Out, raw []byte) {
 		out.NonTrivial()
 	}
 
+	jsonBefore := string(shared.JSON())
 	results := make([][]string, len(c.Progs))
 	barrier := make(chan struct{})
 	var wg sync.WaitGroup
@@ -312,6 +318,10 @@ func c19AccRun(out *c19Out, raw []byte) {
 	close(barrier)
 	wg.Wait() // a goroutine that never comes back is reported by the child's watchdog
 	if out.Failed() {
+		return
+	}
+	if after := string(shared.JSON()); after != jsonBefore {
+		out.Fail("C19/accessors/event-json-changed-by-read-only-accessors", "JSON() read %.200q before the accessors ran and %.200q after", jsonBefore, after)
 		return
 	}
 	for g, p := range c.Progs {
@@ -375,5 +385,5 @@ func init() {
 	c19Scenarios["accessors"] = c19AccRun
 	vfRapid("C19/accessors",
 		"k >= 2 goroutines, released together by a barrier, make first-time accessor calls on one freshly parsed event",
-		150, 2000, 8, c19AccGen, c19AccCheck)
+		320, 4000, 8, c19AccGen, c19AccCheck)
 }
